@@ -35,6 +35,9 @@ pub struct Space {
     pub dicts: Vec<Vec<u8>>,
     pub dict_frames: Vec<Vec<u8>>,
     pub good: Seed,
+    /// frames decoded completely on the same decoder BEFORE the case (reused-decoder variant): they leave
+    /// Huffman tables of both description kinds, FSE tables and RLE symbols behind
+    pub prologues: Vec<Vec<u8>>,
 }
 
 const VALS5: [u8; 5] = [0x00, 0xFF, 0x01, 0x80, 0x7F];
@@ -223,7 +226,9 @@ impl Space {
             fams.push((Fam::Dict(i, 0), head));
             fams.push((Fam::Dict(i, 1), head * 5));
         }
-        Space { seeds, fams, hostile, dicts, dict_frames, good }
+        let w = crate::c07::world();
+        let prologues = vec![w.setters[0].bytes.clone(), w.setters[1].bytes.clone(), w.setters[7].bytes.clone()];
+        Space { seeds, fams, hostile, dicts, dict_frames, good, prologues }
     }
     pub fn total(&self) -> u64 {
         self.fams.iter().map(|f| f.1).sum()
@@ -409,6 +414,30 @@ pub fn run_case(space: &Space, idx: u64) -> Vec<(String, String)> {
             break;
         }
     }
+    // the same input on a decoder that was used before: one of three prologue frames is decoded completely first
+    // (a legal history), then the case through one reader front end; the prologue and the front end rotate with
+    // the case index so that every family meets every combination
+    if out.is_empty() && (!reduced || idx % 4 == 0) {
+        // (every fourth case of the byte-complete spaces, every case of the others)
+        let pi = (idx % space.prologues.len() as u64) as usize;
+        let f = [2usize, 0, 3][((idx / 12) % 3) as usize];
+        let mut dec = FrameDecoder::new();
+        let p = fe::run_on(&mut dec, 2, &space.prologues[pi], 1 << 20);
+        if p.end != End::Ok {
+            out.push(("MODEL:prologue".into(), format!("prologue frame {pi} does not decode: {}", p.brief())));
+            return out;
+        }
+        let o = fe::run_on(&mut dec, f, &data, limit);
+        match &o.end {
+            End::Panic(p) => out.push((format!("panic:{}", p.rsplit(" @ ").next().unwrap_or("")), format!("[{fam}] on a decoder that had decoded another frame before (prologue {pi}), {} panicked: {p}", fe::FRONT_ENDS[f]))),
+            End::Err(_) => {
+                if let Err(e) = epilogue(&mut dec, &space.good) {
+                    out.push((format!("epilogue_reused:{fam_short}"), format!("[{fam}] reused decoder, after {} failed: {e}", fe::FRONT_ENDS[f])));
+                }
+            }
+            End::Ok => {}
+        }
+    }
     out
 }
 
@@ -508,7 +537,7 @@ pub fn main(tier: Tier, replay: Option<Value>, wa: Option<WorkerArgs>) -> i32 {
         *fams.entry(name).or_insert(0) += c;
     }
     run.set("families", json!(fams));
-    run.set("rule", "0 faults = the seed frames (valid per libzstd); 1 fault = every truncation and every (position, value) replacement; 2 faults = position pairs on frames <= 40 bytes (thorough); complete byte-level spaces behind a valid prefix (all 2^24 block headers, all short compressed-block bodies, all short FSE descriptions at the LL/OF/ML/Huffman-weight positions, all short direct weight vectors, all literals-header prefixes); hand-built hostile but well-formed frames; dictionary faults followed by decoding with every mutant that parsed. Each case through up to 8 front ends (2 for the byte-complete spaces) with, after an error, drain + accessor queries + reset onto a good frame that must then decode correctly on the same object. Every case is distinct by construction and counts as non-trivial (it reaches the decoder)");
+    run.set("rule", "0 faults = the seed frames (valid per libzstd); 1 fault = every truncation and every (position, value) replacement; 2 faults = position pairs on frames <= 40 bytes (thorough); complete byte-level spaces behind a valid prefix (all 2^24 block headers, all short compressed-block bodies, all short FSE descriptions at the LL/OF/ML/Huffman-weight positions, all short direct weight vectors, all literals-header prefixes); hand-built hostile but well-formed frames; dictionary faults followed by decoding with every mutant that parsed. Each case through up to 8 front ends (2 for the byte-complete spaces) on a new decoder and through one front end on a decoder that decoded one of three other frames before (Huffman tables of both kinds, FSE tables, RLE symbols, checksum left behind), with, after an error, drain + accessor queries + reset onto a good frame that must then decode correctly on the same object. Every case is distinct by construction and counts as non-trivial (it reaches the decoder)");
     run.sample(json!({"family": "single byte", "seed": space.seeds[3].name, "frame": show(&space.seeds[3].frame)}));
     run.sample(json!({"family": "hostile", "name": space.hostile[0].0, "frame": show(&space.hostile[0].1)}));
     run.assume("process-level isolation: 8 GiB address-space limit and a 10 s watchdog per case in worker subprocesses; a dead worker's case is re-run alone twice before it is reported");
